@@ -1,5 +1,6 @@
-(** C17 — lemmas, part 3: the REPAIRED offset_to_location (fixes/C17-offset-to-location.diff)
-    meets the specification for every file and every query on character boundaries. *)
+(** C17 — lemmas, part 3: offset_to_location as it is in the code (model [Cur], /repo 6f9363a)
+    meets the specification for every file and every query on character boundaries; the
+    printers on top of it. *)
 From Coq Require Import List Arith NArith ZArith Bool Lia Sorting.Sorted.
 From JrV Require Import C17.Model C17.Proofs.
 Import ListNotations.
@@ -126,8 +127,8 @@ Qed.
 Definition boundary (file : list N) (o : N) : Prop :=
   exists k, (k <= length file)%nat /\ o = blen (firstn k file).
 
-Lemma fixed_items_split file k : (k <= length file)%nat ->
-  exists c post, items_of Fixed file =
+Lemma cur_items_split file k : (k <= length file)%nat ->
+  exists c post, items_of Cur file =
                  char_indices_from 0 (firstn k file) ++ (blen (firstn k file), c) :: post.
 Proof.
   intros Hk. unfold items_of.
@@ -147,34 +148,34 @@ Proof.
   rewrite app_nil_r. apply firstn_all.
 Qed.
 
-Lemma fixed_sorted file : StronglySorted N.lt (map fst (items_of Fixed file)).
+Lemma cur_sorted file : StronglySorted N.lt (map fst (items_of Cur file)).
 Proof. unfold items_of. apply ci_sorted. lia. Qed.
 
-Lemma loc_fixed_general file offs i o :
+Lemma loc_general file offs i o :
   (forall o', In o' offs -> boundary file o') ->
   nth_error offs i = Some o ->
-  core (nth i (offset_to_location Fixed file offs) zero_loc) =
+  core (nth i (offset_to_location Cur file offs) zero_loc) =
   (o, spec_line (encode file) o, spec_col (encode file) o + 1, spec_line_start (encode file) o).
 Proof.
   intros Hb Hnth.
   assert (Hio : In o offs) by (eapply nth_error_In; eauto).
   destruct (Hb _ Hio) as (k & Hk & ->).
-  destruct (fixed_items_split file k Hk) as (c & post & Hsplit).
-  rewrite (otl_spec Fixed file offs i (blen (firstn k file)) (char_indices_from 0 (firstn k file)) c post); auto.
+  destruct (cur_items_split file k Hk) as (c & post & Hsplit).
+  rewrite (otl_spec Cur file offs i (blen (firstn k file)) (char_indices_from 0 (firstn k file)) c post); auto.
   - rewrite scan_ci. unfold rec_of, spec_line, spec_col, spec_line_start.
     rewrite prefix_encode_boundary. reflexivity.
   - intros H; discriminate.
-  - apply fixed_sorted.
+  - apply cur_sorted.
   - intros o' Hi. destruct (Hb _ Hi) as (k' & Hk' & ->).
-    destruct (fixed_items_split file k' Hk') as (c' & post' & Hs').
+    destruct (cur_items_split file k' Hk') as (c' & post' & Hs').
     rewrite Hs'. rewrite map_app, in_app_iff. right. simpl. auto.
 Qed.
 
 (** non-vacuity: the design-round observation, repaired; duplicates; 1-4 byte characters *)
-Example loc_fixed_example :
+Example loc_general_example :
   let file := [233; 8364; 10; 128512; 97; 10; 98] in   (* "é€\n😀a\nb" *)
   (forall o', In o' [10; 5; 10; 13; 6; 0] -> boundary file o') /\
-  map core (offset_to_location Fixed file [10; 5; 10; 13; 6; 0]) =
+  map core (offset_to_location Cur file [10; 5; 10; 13; 6; 0]) =
   [(10, 2, 3, 6); (5, 1, 4, 0); (10, 2, 3, 6); (13, 3, 3, 12); (6, 2, 2, 6); (0, 1, 2, 0)].
 Proof.
   split; [|vm_compute; reflexivity].
@@ -186,4 +187,53 @@ Proof.
   - exists 7%nat. split; [simpl; lia|reflexivity].
   - exists 3%nat. split; [simpl; lia|reflexivity].
   - exists 0%nat. split; [simpl; lia|reflexivity].
+Qed.
+
+(* ------------------------------------------------------------------ mapper + printers *)
+Lemma span_locs file a b :
+  boundary file a -> boundary file b ->
+  let locs := offset_to_location Cur file [a; b] in
+  core (nth 0 locs zero_loc) = (a, spec_line (encode file) a, spec_col (encode file) a + 1, spec_line_start (encode file) a) /\
+  core (nth 1 locs zero_loc) = (b, spec_line (encode file) b, spec_col (encode file) b + 1, spec_line_start (encode file) b).
+Proof.
+  intros Ha Hb locs.
+  assert (H : forall o', In o' [a; b] -> boundary file o') by (intros o' [<-|[<-|[]]]; auto).
+  split; [apply (loc_general file [a; b] 0 a H eq_refl)|apply (loc_general file [a; b] 1 b H eq_refl)].
+Qed.
+
+Lemma reported_position file a b :
+  boundary file a -> boundary file b ->
+  spec_line (encode file) a = spec_line (encode file) b ->
+  let locs := offset_to_location Cur file [a; b] in
+  let p := print_loc (nth 0 locs zero_loc) (nth 1 locs zero_loc) in
+  printed_line p = spec_line (encode file) a /\ printed_col p = spec_col (encode file) a.
+Proof.
+  intros Ha Hb Hl locs p.
+  destruct (span_locs file a b Ha Hb) as [H0 H1]. fold locs in H0, H1.
+  unfold core in H0, H1. inversion H0. inversion H1.
+  destruct (print_same_line (nth 0 locs zero_loc) (nth 1 locs zero_loc)) as [P1 P2].
+  { unfold known_multiline. apply negb_false_iff. apply N.eqb_eq. congruence. }
+  subst p. rewrite P1, P2. split; [congruence|]. rewrite H4. lia.
+Qed.
+
+Lemma jsformat_position file a b :
+  boundary file a -> boundary file b ->
+  let locs := offset_to_location Cur file [a; b] in
+  print_js (nth 0 locs zero_loc) = (spec_line (encode file) a, spec_col (encode file) a).
+Proof.
+  intros Ha Hb locs. destruct (span_locs file a b Ha Hb) as [H0 _]. fold locs in H0.
+  unfold core in H0. injection H0 as E1 E2 E3 E4. unfold print_js. rewrite E2, E3. f_equal. lia.
+Qed.
+
+(** non-vacuity: "// é\nerror \"é\"" , span of `error` = [6, 11) *)
+Example reported_position_example :
+  let file := [47; 47; 32; 233; 10; 101; 114; 114; 111; 114; 32; 34; 233; 34] in
+  boundary file 6 /\ boundary file 11 /\
+  let locs := offset_to_location Cur file [6; 11] in
+  print_loc (nth 0 locs zero_loc) (nth 1 locs zero_loc) = (2, 1, Some (None, 7)) /\
+  print_js (nth 0 locs zero_loc) = (2, 1).
+Proof.
+  split; [exists 5%nat; split; [simpl; lia|reflexivity]|].
+  split; [exists 10%nat; split; [simpl; lia|reflexivity]|].
+  vm_compute. split; reflexivity.
 Qed.
